@@ -97,6 +97,9 @@ def run(ctx) -> None:
     ctx.rule("R02.12", "sorted / min / max never hand the user's key to list.sort / sorted / min / max of the standard library, which "
                        "would use a coroutine as the key (R03.14, shared)")
     c03.r03_14(Relabel(ctx, "R02.12"), "R02.12")  # (sorted / min / max with a key that is asynchronous in any flavour)
+    ctx.rule("R02.13", "a key / reduction function is used whatever its truth value (a callable object may be falsy): whether one was "
+                       "given is decided by `is None` (R03.12, shared)")
+    c03.r03_12(Relabel(ctx, "R02.13"), modules=("builtins", "heapq", "functools", "_core"))
     from . import tooltables
     tooltables.aggregate_tables(ctx, "R02.8")
     ctx.floor("agg_cells_decided", 700)
@@ -353,7 +356,7 @@ def r02_2(ctx) -> None:
 # --------------------------------------------------------------------------- R02.3
 def r02_3(ctx) -> None:
     for short in AGGREGATIONS:
-        u = ctx.unit(short)
+        u = ctx.inlined(ctx.unit(short))  # (what a private collecting step hands back may be the caller's own object)
         ctx.count("aggregations")
         cfg = cfg_of(u)
         params = {f"{u.short}:{p}" for p in u.param_names()}
